@@ -97,19 +97,16 @@ impl SchedulerCore {
     /// If a queue is idle and has pending jobs, places it in the schedule
     ///
     pub (super) fn reschedule_queue(&self, queue: &Arc<JobQueue>, core: Arc<SchedulerCore>) {
-        let reschedule = {
+        let (reschedule, blocked) = {
             let mut core = queue.core.lock().expect("JobQueue core lock");
 
-            // Signal any waiting condition variables
-            core.wake_blocked.iter_mut()
-                .for_each(|cond_var| {
-                    if let Some(cond_var) = cond_var.upgrade() {
-                        cond_var.notify_one();
-                    }
-                });
-            core.wake_blocked.retain(|cond_var| cond_var.strong_count() > 0);
+            // Collect any waiting condition variables (they're signalled once the core lock is released)
+            core.wake_blocked.retain(|(cond_var, _)| cond_var.strong_count() > 0);
+            let blocked = core.wake_blocked.iter()
+                .filter_map(|(cond_var, mutex)| Some((cond_var.upgrade()?, mutex.upgrade()?)))
+                .collect::<Vec<_>>();
 
-            match core.state {
+            let reschedule = match core.state {
                 QueueState::Idle => {
                     // Schedule a thread to restart the queue if more things were queued
                     if core.queue.len() > 0 {
@@ -132,11 +129,22 @@ impl SchedulerCore {
                     // Not scheduled
                     false
                 }
-            }
+            };
+
+            (reschedule, blocked)
         };
 
         if reschedule {
             self.schedule.lock().expect("Schedule lock").push_back(queue.clone());
+        }
+
+        // Signal the blocked threads while holding their mutex, so a thread that has checked the queue but not yet started waiting can't miss the notification
+        for (cond_var, mutex) in blocked {
+            let _waiting = mutex.lock().expect("Background job ready lock");
+            cond_var.notify_one();
+        }
+
+        if reschedule {
             self.schedule_thread(core);
         }
     }
